@@ -108,9 +108,13 @@ type c03In struct {
 	ReqEnc   string      `json:"reqEnc"` // cl | chunked | none
 	ReqBody  []byte      `json:"reqBody"`
 	ReqChunk int         `json:"reqChunk"`
+	Cut      bool        `json:"cut"`   // the client sends only ReqBody[:CutAt] (no last-chunk) and half-closes
+	CutAt    int         `json:"cutAt"` //
 
 	CStream  bool     `json:"cstream"`  // clientMaxBodySize -1
-	SStream  bool     `json:"sstream"`  // serverMaxBodySize -1
+	SStream  bool     `json:"sstream"`  // serverMaxBodySize -1 (proxy level), when PoolMax = ProxyMax = 0
+	PoolMax  int64    `json:"poolMax"`  // pool-level serverMaxBodySize
+	ProxyMax int64    `json:"proxyMax"` // proxy-level serverMaxBodySize
 	SrvHost  string   `json:"srvHost"`  // 127.0.0.1 | localhost
 	KeepHost bool     `json:"keepHost"` //
 	LB       string   `json:"lb"`       // loadBalance.policy ("" = not configured)
@@ -398,7 +402,9 @@ func c03PipelineYAMLExt(in *c03In, addr string, mc *c03Cache, ed *c03Edit) strin
 	}
 	adapt("RequestAdaptor", "reqadaptor", in.RA)
 	w.WriteString("- name: proxy\n  kind: Proxy\n")
-	if in.SStream {
+	if in.ProxyMax != 0 {
+		fmt.Fprintf(&w, "  serverMaxBodySize: %d\n", in.ProxyMax)
+	} else if in.SStream && in.PoolMax == 0 {
 		w.WriteString("  serverMaxBodySize: -1\n")
 	}
 	if in.MinLen >= 0 {
@@ -406,6 +412,9 @@ func c03PipelineYAMLExt(in *c03In, addr string, mc *c03Cache, ed *c03Edit) strin
 	}
 	_, port, _ := net.SplitHostPort(addr)
 	w.WriteString("  pools:\n  - ")
+	if in.PoolMax != 0 {
+		fmt.Fprintf(&w, "serverMaxBodySize: %d\n    ", in.PoolMax)
+	}
 	if mc != nil && mc.On {
 		fmt.Fprintf(&w, "memoryCache:\n      expiration: 1h\n      maxEntryBytes: %d\n      codes: %s\n      methods: %s\n    ",
 			mc.Max, strings.ReplaceAll(fmt.Sprint(mc.Codes), " ", ", "), "["+strings.Join(mc.Methods, ", ")+"]")
@@ -457,17 +466,21 @@ func c03Serve(fr *c07Front, be *c07Backend, in *c03In) (obs c03Obs) {
 	for _, kv := range in.Headers {
 		fmt.Fprintf(&req, "%s: %s\r\n", kv[0], kv[1])
 	}
+	sent, cut := in.ReqBody, in.Cut && in.ReqEnc != "none"
+	if cut && in.CutAt >= 0 && in.CutAt <= len(sent) {
+		sent = sent[:in.CutAt]
+	}
 	switch in.ReqEnc {
 	case "cl":
 		fmt.Fprintf(&req, "Content-Length: %d\r\n\r\n", len(in.ReqBody))
-		req.Write(in.ReqBody)
+		req.Write(sent)
 	case "chunked":
 		req.WriteString("Transfer-Encoding: chunked\r\n\r\n")
-		req.Write(c07Chunked(in.ReqBody, in.ReqChunk, true))
+		req.Write(c07Chunked(sent, in.ReqChunk, !cut))
 	default:
 		req.WriteString("\r\n")
 	}
-	r := c07Exchange(fr.Addr(), req.Bytes(), false)
+	r := c07Exchange(fr.Addr(), req.Bytes(), cut)
 	be.Quiesce()
 	seen := be.Seen()[before:]
 
@@ -803,6 +816,24 @@ func c03Gen(r *vfRand, adv bool) (in c03In) {
 		}
 	}
 
+	// response limits at pool / proxy level (-1 stream, positive, 0) in every combination;
+	// the pool-level value wins unless it is 0
+	limL := 0
+	if r.Chance(1, 5) || (adv && r.Bool()) {
+		limL = r.PickInt(64, 300, 1000, 5000)
+		L := int64(limL)
+		pairs := [][2]int64{{-1, L}, {-1, L}, {L, -1}, {0, L}, {L, 0}, {-1, 0}, {0, -1}, {L, 2 * L}, {2 * L, L}, {-1, -1}}
+		pp := pairs[r.Intn(len(pairs))]
+		in.SStream, in.PoolMax, in.ProxyMax = false, pp[0], pp[1]
+	}
+	// an upload the client cuts off
+	if in.ReqEnc != "none" && len(in.ReqBody) > 0 && !in.RA.On && (r.Chance(1, 10) || (adv && r.Chance(1, 3))) {
+		in.Cut, in.CutAt = true, r.PickInt(0, 1, len(in.ReqBody)/2, len(in.ReqBody)-1)
+		if in.ReqEnc == "chunked" && r.Chance(1, 3) {
+			in.CutAt = len(in.ReqBody) // all the data, but never the last-chunk
+		}
+	}
+
 	// backend response
 	in.RespStatus = r.PickInt(200, 200, 200, 201, 202, 301, 302, 400, 404, 418, 500, 502, 503)
 	in.RespEnc = r.PickStr("cl", "cl", "cl", "chunked", "chunked", "close")
@@ -810,6 +841,9 @@ func c03Gen(r *vfRand, adv bool) (in c03In) {
 		in.RespEnc = r.PickStr("cl", "cl", "cl", "chunked")
 	}
 	in.RespBody = c03Text(r, c03Size(r, in.MinLen, big))
+	if limL > 0 && r.Chance(3, 4) { // around and above the configured limit
+		in.RespBody = c03Text(r, r.PickInt(limL-1, limL, limL+1, 3*limL, 3*limL))
+	}
 	in.RespChunk = r.PickInt(1, 7, 100, 4096, 1<<20)
 	hs := [][2]string{{"Content-Type", r.PickStr("text/plain; charset=utf-8", "application/json", "application/octet-stream")}}
 	pool := [][2]string{{"X-Resp", "r1"}, {"X-Resp", "r2"}, {"Set-Cookie", "a=1; Path=/"}, {"Set-Cookie", "b=2; HttpOnly"},
